@@ -84,7 +84,8 @@ def phase_of(where):
     if not where.get("main", True):
         return "in-forked-child"
     if where["file"] == "real.py":
-        return "inside-body"
+        # the class statement of the body runs when the task module is imported
+        return "inside-body" if where.get("func") == "execute" else "loading"
     ph = phases()
     line = where["line"]
 
@@ -111,6 +112,15 @@ def phase_of(where):
     if inside("TaskRunner.__init__"):
         return "before-lock"
     return "before-lock"  # module-level lines of run.py executed at import
+
+
+def begin_record_line():
+    """Line of vx/real.py at which Body.execute writes its begin record (the record is on disk when
+    a later line of execute is reached)"""
+    from vlib.core import VERIF
+
+    lines = (VERIF / "vx" / "real.py").read_text().splitlines()
+    return next(i + 1 for i, l in enumerate(lines) if 'fp.write(f"begin ' in l)
 
 
 def enum_cases(ctx, shapes, refault):
@@ -190,7 +200,7 @@ def prop(ctx, case):
             if had_done and ran != 0:
                 ctx.violation("relaunch-reran-completed-body", f"{label}: .done existed but the body ran again ({ran} times)")
             w2 = r2["where"]
-            reached_body = w2 is None or not w2.get("main", True) or phase_of(w2) in ("inside-body", "after-body", "cleanup") or (phase_of(w2) == "loading" and False)
+            reached_body = w2 is None or not w2.get("main", True) or phase_of(w2) in ("after-body", "cleanup") or (phase_of(w2) == "inside-body" and w2["line"] > begin_record_line())
             if not had_done and ran == 0 and (step is None or reached_body) and r2["rc"] != "timeout":
                 ctx.violation(f"relaunch-skipped-body:after-{ph}", f"{label}: no .done existed but the body did not run (exit status {r2['rc']}, markers {jc.markers()})")
             if ran > 1:
